@@ -633,7 +633,7 @@ func (q *QueryRangeService) Tail(ctx context.Context, query string) (model.IWatc
 					stream.WriteMore()
 					stream.WriteString(e.Message)
 					stream.WriteArrayEnd()
-					if from.UnixNano() < e.TimestampNS {
+					if from.UnixNano() <= e.TimestampNS {
 						from = time.Unix(0, e.TimestampNS+1)
 					}
 				}
